@@ -356,6 +356,7 @@ type dataChannelHandlerWithRelayURL struct {
 }
 
 func (d dataChannelHandlerWithRelayURL) datachannelHandler(conn *webRTCConn, remoteAddr net.Addr) {
+	vhook("dh.start")
 	if !atomic.CompareAndSwapInt32(d.tokenOwner, tokenOwnerNone, tokenOwnerHandler) {
 		// runSession gave up on this session and has returned its token
 		conn.Close()
